@@ -43,7 +43,7 @@ PATCH_INPUTS = [([{"op": "add", "path": "/z", "value": 1}], "ok"), ([{"op": "rem
                 ([{"op": "add", "path": "x", "value": 1}], "patch"),
                 ([{"op": "replace", "path": "/\\u00e9", "value": "changed"}], "ok"), ([{"op": "replace", "path": "/s%20t", "value": "changed"}], "ok"),
                 ([{"op": "test", "path": "/\\u00e9", "value": "literal"}], "ok")]     # flag-sensitive: --no-unicode-escape / -u decide which member is meant
-DOC_KINDS = ["valid", "malformed", "undecodable", "bom", "utf16", "nonfinite"]       # the last two: valid JSON the library decodes from bytes (BOM, UTF-16)
+DOC_KINDS = ["valid", "malformed", "undecodable", "bom", "utf16", "nonfinite", "word", "two-values", "open-string", "empty"]       # the last two: valid JSON the library decodes from bytes (BOM, UTF-16)
 
 
 def gen(ctx):
@@ -121,6 +121,7 @@ def evaluate(ctx, cases):
     tmp = tempfile.mkdtemp(prefix="jpverif-cli-", dir="/var/tmp")
     try:
         docs = {"valid": json.dumps(DOC).encode(), "malformed": b'{"a": [1, 2', "undecodable": b"\xff\xfe\xff",
+                "word": b"nope", "two-values": b"1 2", "open-string": b'"unterminated', "empty": b"",      # not JSON, and without any bracket
                 "nonfinite": json.dumps({**DOC, "a": [1e999, -1e999, {"b": float("nan")}], "k": 1e999}).encode(),      # Infinity / NaN, as Python's json reads and writes them
                 "bom": b"\xef\xbb\xbf" + json.dumps(DOC, ensure_ascii=False).encode("utf-8"), "utf16": json.dumps(DOC, ensure_ascii=False).encode("utf-16")}
         for kname, data in docs.items():
@@ -196,6 +197,15 @@ def evaluate(ctx, cases):
                     raise ValueError("not a list")
                 return jsonpath.patch.apply(patch, io.BytesIO(doc_bytes), unicode_escape=not c["noue"], uri_decode=c["uri"])
             lo = core.outcome(lib)
+            # an independent reading of "the document is JSON" (Python's own decoder on the bytes): a target document that
+            # is not JSON must be refused by the tool, whatever leniency the library's loader has for *string* arguments
+            try:
+                json.loads(doc_bytes)
+                doc_is_json = True
+            except (ValueError, UnicodeDecodeError):
+                doc_is_json = False
+            if not doc_is_json and "ok" in lo:
+                lo = {"err": "not JSON (python json.loads rejects the document)", "family": None}
             inp = {k: (v if not isinstance(v, bytes) else repr(v)) for k, v in c.items()}
             inp["argv"] = argv
             ctx.case(repr(sorted(inp.items(), key=str)), True, sample={"argv": argv, "status": status, "library": "ok" if "ok" in lo else lo["err"]})
